@@ -1,1 +1,135 @@
-// harnesses for thread (included into loom under cfg(loom_verif))
+// crate::rt::thread::verif -- harness-side construction of thread sets and
+// lemmas about thread-state transitions (C05/C08: set_unparked, unpark).
+#![allow(dead_code, unused_imports)]
+
+use super::*;
+use crate::rt::verif::{le, max_raw, vharness, vv, vv_raw};
+#[cfg(not(kani))]
+use crate::rt::verif::kani_shim as kani;
+use crate::rt::MAX_THREADS;
+
+pub(crate) const EXEC_ID: usize = 7;
+
+/// A real `thread::Set` with `n` threads (1..=5), created through the real
+/// constructors; thread 0 active.
+pub(crate) fn mk_set(n: usize) -> Set {
+    let mut set = Set::new(crate::rt::execution::verif::id(EXEC_ID), MAX_THREADS);
+    let mut i = 1;
+    while i < n {
+        set.new_thread();
+        i += 1;
+    }
+    set
+}
+
+pub(crate) fn tid(i: usize) -> Id {
+    Id::new(crate::rt::execution::verif::id(EXEC_ID), i)
+}
+
+/// Sets the active thread without going through tracing.
+pub(crate) fn activate(set: &mut Set, i: usize) {
+    set.active = Some(i);
+}
+
+pub(crate) fn deactivate(set: &mut Set) {
+    set.active = None;
+}
+
+pub(crate) fn active_index(set: &Set) -> Option<usize> {
+    set.active
+}
+
+pub(crate) fn len(set: &Set) -> usize {
+    set.threads.len()
+}
+
+pub(crate) fn th(set: &mut Set, i: usize) -> &mut Thread {
+    &mut set.threads[i]
+}
+
+pub(crate) fn th_ref(set: &Set, i: usize) -> &Thread {
+    &set.threads[i]
+}
+
+/// Encodes a thread state as a small integer (for comparisons in harnesses):
+/// 0 Runnable{unparked:false}, 1 Runnable{unparked:true}, 2 Blocked, 3 Yield, 4 Terminated
+pub(crate) fn state_code(s: &State) -> u8 {
+    match s {
+        State::Runnable { unparked: false } => 0,
+        State::Runnable { unparked: true } => 1,
+        State::Blocked(..) => 2,
+        State::Yield => 3,
+        State::Terminated => 4,
+    }
+}
+
+pub(crate) fn state_from_code(c: u8) -> State {
+    match c {
+        0 => State::Runnable { unparked: false },
+        1 => State::Runnable { unparked: true },
+        2 => State::Blocked(crate::rt::Location::disabled()),
+        3 => State::Yield,
+        _ => State::Terminated,
+    }
+}
+
+/// Arbitrary clocks for the first `n` threads of `set`.
+pub(crate) fn havoc_clocks(set: &mut Set, n: usize) {
+    let mut i = 0;
+    while i < n {
+        let c: [u16; MAX_THREADS] = kani::any();
+        let r: [u16; MAX_THREADS] = kani::any();
+        let d: [u16; MAX_THREADS] = kani::any();
+        set.threads[i].causality = vv(c);
+        set.threads[i].released = vv(r);
+        set.threads[i].dpor_vv = vv(d);
+        i += 1;
+    }
+}
+
+vharness! {
+    /// @prop C05,C08 @tier quick @mode full @funcs Thread::set_unparked,Thread::unpark @bounds all 5 thread states, all clocks
+    /// Thread::unpark: the target's clock becomes the join with the unparker's; state: Blocked/Yield -> Runnable without token, Runnable -> token stored, Terminated unchanged.
+    fn thread_unpark_transition() {
+        let mut set = mk_set(2);
+        let code: u8 = kani::any();
+        kani::assume(code <= 4);
+        let c0: [u16; MAX_THREADS] = kani::any();
+        let c1: [u16; MAX_THREADS] = kani::any();
+        set.threads[0].causality = vv(c0);
+        set.threads[1].causality = vv(c1);
+        set.threads[1].state = state_from_code(code);
+        // thread 0 (active) unparks thread 1 through the real Set::unpark
+        set.unpark(tid(1));
+        let after = state_code(&set.threads[1].state);
+        let expect = match code {
+            0 | 1 => 1,      // runnable: token stored
+            2 | 3 => 0,      // blocked / yielded: runnable, no token
+            _ => 4,          // terminated: unchanged
+        };
+        assert!(after == expect);
+        assert!(vv_raw(&set.threads[1].causality) == max_raw(&c0, &c1));
+        assert!(vv_raw(&set.threads[0].causality) == c0);
+        kani::cover!(code == 2, "blocked target");
+        kani::cover!(code == 0, "runnable target");
+        std::mem::forget(set);
+    }
+}
+
+vharness! {
+    /// @prop C08 @tier quick @mode full @funcs Set::unpark,Thread::set_unparked @bounds all states of the active thread
+    /// Self-unpark stores the token and does not touch clocks.
+    fn thread_self_unpark() {
+        let mut set = mk_set(2);
+        let code: u8 = kani::any();
+        kani::assume(code <= 1);
+        let c0: [u16; MAX_THREADS] = kani::any();
+        set.threads[0].causality = vv(c0);
+        set.threads[0].state = state_from_code(code);
+        set.unpark(tid(0));
+        assert!(state_code(&set.threads[0].state) == 1);
+        assert!(vv_raw(&set.threads[0].causality) == c0);
+        kani::cover!(code == 0, "no token before");
+        std::mem::forget(set);
+    }
+}
